@@ -25,7 +25,8 @@ Definition pad_se (left : bool) (pat : list (option Z)) : option Z :=
   if left then hd None pat else last pat None.
 
 (* layout: 0 left, 1 right, 2 stride, 3 left_padded, 4 right_padded
-   ctor:   0 from extents; 1 from extents+strides; 2 from extents + run-time padding value *)
+   ctor:   0 from extents; 1 from extents+strides; 2 from extents + run-time padding value; 3 default;
+           4 (padded layouts) converted from layout_stride::mapping(extents, strides) *)
 Definition build_mapping (t : ity) (lay : nat) (pv : option Z) (pat : list (option Z)) (ctor : nat)
            (es ss : list Z) (dpv : Z) : res mapping :=
   match lay with
@@ -34,8 +35,10 @@ Definition build_mapping (t : ity) (lay : nat) (pv : option Z) (pat : list (opti
   | 2%nat => if Nat.eqb ctor 3 then rmap (MStride es) (default_stride_strides t es)     (* mapping() *)
              else Ok (MStride es (map (wrap t) ss))
   | 3%nat => if Nat.eqb ctor 2 then pad_ctor_ext_pv t true pv (pad_se true pat) es dpv
+             else if Nat.eqb ctor 4 then conv_mapping t (MStride es (map (wrap t) ss)) (mkmt t pat KLPad pv)   (* mapping(layout_stride::mapping) *)
              else pad_ctor_ext t true pv (pad_se true pat) es
   | _ => if Nat.eqb ctor 2 then pad_ctor_ext_pv t false pv (pad_se false pat) es dpv
+         else if Nat.eqb ctor 4 then conv_mapping t (MStride es (map (wrap t) ss)) (mkmt t pat KRPad pv)
          else pad_ctor_ext t false pv (pad_se false pat) es
   end.
 
